@@ -217,7 +217,7 @@ def exhaustive_instances(ctx):
                  prot2=("p1",), prot1=("p2",), profile=2),
             inst("big-c", P3, ("p1a", "p2a", "p3a"), maxage=1, decaymax=2, decayevery=2, prot1=("p1",), profile=2),
         ]
-    return [inst("big-q", P3, ("p1a", "p1b", "p2a", "p3a"), maxage=1, prot2=("p1",), prot1=("p2", "p3"), profile=3)]
+    return [inst("big-q", P3, ("p1a", "p1b", "p2a", "p3a"), maxage=1, prot2=("p1",), prot1=("p2",), profile=3)]
 
 
 def _exhaustive(args):
@@ -231,9 +231,9 @@ def _exhaustive(args):
 
 def _reach(args):
     """Vacuity guard on an exhaustive-only instance: the probe (expected to be violated) must be."""
-    ctx, (name, consts), probe = args
+    ctx, (name, consts), probe, workers = args
     cfg = tlc.subst_cfg("C14_MC.cfg", consts, replace=[(INV, "INVARIANTS TypeOK"), (PROPS, "PROPERTIES " + probe)])
-    r = tlc.run(ctx, "C14_MC", "gen_%s_%s.cfg" % (name, probe), cfg_text=cfg, workers=2, timeout=600,
+    r = tlc.run(ctx, "C14_MC", "gen_%s_%s.cfg" % (name, probe), cfg_text=cfg, workers=workers, timeout=600,
                 name="reach" + name + probe)
     if r.ok or r.violated != probe:
         raise MachineryError("vacuity guard: %s is not reachable in the exhaustive instance %s" % (probe, name))
@@ -296,8 +296,8 @@ def _replay_instance(args):
     return name, r.distinct, r.generated, g.n_edges(), len(walks), steps, stats, r.wall
 
 
-def _stress(ctx):
-    return goenv.run_harness(ctx, PKG, "^TestVerifC14Stress$", timeout=1500)
+def _harness(ctx, test, inputs):
+    return goenv.run_harness(ctx, PKG, test, inputs=inputs, timeout=1500)
 
 
 def run(ctx):
@@ -309,25 +309,30 @@ def run(ctx):
     rinsts = replay_instances(ctx)
     einsts = exhaustive_instances(ctx)
 
-    # at most 4 TLC workers at any time: exhaustive runs one after the other with 2 workers, the printing
-    # runs in two lanes with 1 worker each; the stress needs no TLC output, so it (and with it the build of
-    # the test binary) runs meanwhile in its own process
-    with cf.ProcessPoolExecutor(max_workers=1) as pe, cf.ProcessPoolExecutor(max_workers=2) as pr, \
+    # at most 4 TLC workers at any time: exhaustive runs one after the other with 2 workers, the printing runs
+    # take 1 each in two lanes.  The stress needs no TLC
+    # output, so it (and with it the build of the test binary) runs meanwhile in its own process; the
+    # interference scenarios run there as soon as their scripts exist.
+    ew, lanes = 2, 2
+    with cf.ProcessPoolExecutor(max_workers=1) as pe, cf.ProcessPoolExecutor(max_workers=lanes) as pr, \
             cf.ProcessPoolExecutor(max_workers=1) as ps:
-        fs = ps.submit(_stress, ctx)
-        fe = [pe.submit(_exhaustive, (ctx, i, 2)) for i in einsts]
+        fs = ps.submit(_harness, ctx, "^TestVerifC14Stress$", None)
+        fe = [pe.submit(_exhaustive, (ctx, i, ew)) for i in einsts]
         # a trim that skips a protected peer and closes another one / a forced trim closing a protected peer
-        fg = [pe.submit(_reach, (ctx, einsts[0], probe)) for probe in ("ReachProtSkip", "ReachForceProt")]
-        fgate = pr.submit(_gate_instance, (ctx, gate_instance(ctx), gate_dir, 20000 if ctx.quick else 10 ** 9))
+        fg = [pe.submit(_reach, (ctx, einsts[0], probe, ew)) for probe in ("ReachProtSkip", "ReachForceProt")]
+        fgate = pr.submit(_gate_instance, (ctx, gate_instance(ctx), gate_dir, 12000 if ctx.quick else 10 ** 9))
         fr = [pr.submit(_replay_instance, (ctx, i, beh_dir)) for i in rinsts]
+        gres = fgate.result()
+        log("C14: interference scripts done at %.1fs" % ctx.wall())
+        fgh = ps.submit(_harness, ctx, "^TestVerifC14Gates$", gate_dir)
         eres = [f.result() for f in fe]
         guards = [f.result() for f in fg]
         log("C14: exhaustive done at %.1fs" % ctx.wall())
         rres = [f.result() for f in fr]
-        gres = fgate.result()
         log("C14: graphs and walks done at %.1fs" % ctx.wall())
         stress = fs.result()
-        log("C14: stress done at %.1fs" % ctx.wall())
+        gates = fgh.result()
+        log("C14: stress and interference scenarios done at %.1fs" % ctx.wall())
 
     states = sum(r[1] for r in eres) + sum(r[1] for r in rres) + gres[1]
     trans = sum(r[2] for r in eres) + sum(r[2] for r in rres) + gres[2]
@@ -345,7 +350,6 @@ def run(ctx):
 
     div = classify_mismatches(ctx, stress, "stress")
 
-    gates = goenv.run_harness(ctx, PKG, "^TestVerifC14Gates$", inputs=gate_dir, timeout=1500)
     div += classify_mismatches(ctx, gates, "gates")
     gx = gates.get("extra") or {}
     if not gates["mismatches"] and not (gx.get("went_and_came_back_realised") and gx.get("runs_delivered_trim")
